@@ -133,7 +133,7 @@ var worksizeExempt = map[string]string{
 
 func init() {
 	properties["C01"] = &property{
-		explanation: "Decides structural necessary conditions of C01 for all BLAS code paths: TWIN.generated — every generated float32/complex64 routine (and sgemm, the dot variants, the blas32/cblas64/cblas128 conversions), none of which has tests of its own at Level 2/3, is node for node the image of its tested float64/complex128 source under the generator's renaming; MODSET.blas — for all 142 routines the set of slice operands that may be written (SSA store/copy/call summaries with a level-sensitive points-to abstraction, bottom-up over the VTA call graph, analysed under the noasm tag so that every kernel has a Go body) equals the output operands of the BLAS standard for the routine's stem ('every read-only operand is unchanged', up to caller-supplied aliasing); STRIDE — no operand of blas/gonum, the blas64/blas32/cblas* wrappers or the internal/asm Go kernels is indexed, sliced or forwarded with another operand's ld/inc/Stride (units inferred by flow-insensitive fixpoint over integer locals). STRIDE.extent — the element count of a strided vector in its length check, its negative-increment start offset and (in the kernels) its loop bound is one quantity; the start-index arguments (ix, iy) of the strided kernels obey the index rules; FLAG.trans — no real-valued routine or blas64/blas32 wrapper that accepts blas.ConjTrans distinguishes it from blas.Trans in any condition or switch. ASM.window/.tail/.units on the 56 assembly kernels. Does not decide arithmetic correctness of the loop nests, rounding, or the arithmetic of the assembly.",
+		explanation: "Decides structural necessary conditions of C01 for all BLAS code paths: TWIN.generated — every generated float32/complex64 routine (and sgemm, the dot variants, the blas32/cblas64/cblas128 conversions), none of which has tests of its own at Level 2/3, is node for node the image of its tested float64/complex128 source under the generator's renaming; MODSET.blas — for all 142 routines the set of slice operands that may be written (SSA store/copy/call summaries with a level-sensitive points-to abstraction, bottom-up over the VTA call graph, analysed under the noasm tag so that every kernel has a Go body) equals the output operands of the BLAS standard for the routine's stem ('every read-only operand is unchanged', up to caller-supplied aliasing); STRIDE — no operand of blas/gonum, the blas64/blas32/cblas* wrappers or the internal/asm Go kernels is indexed, sliced or forwarded with another operand's ld/inc/Stride (units inferred by flow-insensitive fixpoint over integer locals). STRIDE.extent — the element count of a strided vector in its length check, its negative-increment start offset and (in the kernels) its loop bound is one quantity; the start-index arguments (ix, iy) of the strided kernels obey the index rules; FLAG.trans — no real-valued routine or blas64/blas32 wrapper that accepts blas.ConjTrans distinguishes it from blas.Trans in any condition or switch. FLAG.neginc — the 18 Level 1 routines that return at once for a negative increment are discovered from their bodies; a routine that accepts negative values of its own increment parameter hands it to one of them unchanged only under a test that it is positive (Dgemv's beta-scaling of y). ASM.window/.tail/.units on the 56 assembly kernels. Does not decide arithmetic correctness of the loop nests, rounding, or the arithmetic of the assembly.",
 		assumptions: commonAssumptions,
 		run: func(tier string, res *core.Result) {
 			r := stride.Run(def, core.Pkgs(blasPkgs...))
@@ -154,6 +154,10 @@ func init() {
 			fl.Floor("transpose_params", 50)
 			fl.Floor("decisions", 60)
 			res.Merge(fl)
+			ni := flagx.RunNegInc(def, core.Pkgs("./blas/gonum"))
+			ni.Floor("routines_returning_at_once_for_negative_increments", 12)
+			ni.Floor("increment_parameters_forwarded_to_quick_returning_routines", 2)
+			res.Merge(ni)
 			for _, c := range []core.Config{{}, {Tags: "noasm"}} {
 				pu := paramuse.Run(c, core.Pkgs(blasPkgs...))
 				pu.Floor("parameters", 1500)
@@ -192,7 +196,7 @@ func init() {
 
 func lapackProp(self, other, what string) *property {
 	return &property{
-		explanation: "Decides structural necessary conditions of " + self + " on the lapack/gonum routines anchored by it (and shared auxiliaries), for every path and both workspace modes: ARGS.query — with lwork == -1 the only stores are to work[0] and the only calls are queries/scalar helpers ('a workspace query touches nothing else'); OKFLOW.use/.report — the ok/unconverged status of every callee (a singular pivot from Dgetrf/Dpotrf/Dtrtrs/...) reaches a branch, field or return, and no driver returns success on the path where a callee failed; ARGS.order/.lencheck/.complete — arguments are validated before any operand write, every slice use is preceded by a branch on its length, every int/flag/slice parameter is validated; STRIDE — no operand is addressed with another operand's leading dimension, so results cannot depend on which matrix's ld was used; a strided vector handed on to BLAS keeps its own increment (STRIDE.vecinc); a workspace block is used with one leading dimension throughout a routine and the region laid out after it starts that many rows further (STRIDE.workld/.worknext); FLAG.trans on the routines that accept ConjTrans; FACTKIND.pair — the Householder reflectors (a, tau) left by a QR, RQ, LQ or QL factorization routine reach only the multiply/generate routines of the same family (reaching producers on the CFG; found and repaired: Dggsvp3 applied the reflectors of Dgerq2 with Dorm2r, so mat.GSVD of a 2x5 pair panicked); LOOPIDX.origin — the key of a range over a local reslice base[lo:hi] is not used bare to index base (found and repaired in the same routine); WORKSIZE.min/.set — on every path that returns in query mode the value stored to work[0] is proved (path-wise symbolic interpretation of the prologue in a max/min-of-polynomials normal form, block sizes and nested query answers >= 1, zero/positive facts from the quick-return tests) to be at least the minimum lwork the same routine enforces with panic(badLWork), so a caller passing the queried length is never rejected; WORKSIZE.querylen — no operand length panic is reachable in query mode, the drivers query their subroutines with nil operands (found and repaired: the quick-return answers of nine routines and Dsyev's missing store). " + what,
+		explanation: "Decides structural necessary conditions of " + self + " on the lapack/gonum routines anchored by it (and shared auxiliaries), for every path and both workspace modes: ARGS.query — with lwork == -1 the only stores are to work[0] and the only calls are queries/scalar helpers ('a workspace query touches nothing else'); OKFLOW.use/.report — the ok/unconverged status of every callee (a singular pivot from Dgetrf/Dpotrf/Dtrtrs/...) reaches a branch, field or return, and no driver returns success on the path where a callee failed; ARGS.order/.lencheck/.complete — arguments are validated before any operand write, every slice use is preceded by a branch on its length, every int/flag/slice parameter is validated; STRIDE — no operand is addressed with another operand's leading dimension, so results cannot depend on which matrix's ld was used; a strided vector handed on to BLAS keeps its own increment (STRIDE.vecinc); a workspace block is used with one leading dimension throughout a routine and the region laid out after it starts that many rows further (STRIDE.workld/.worknext); FLAG.trans on the routines that accept ConjTrans; FLAG.uplomap — where a blas.Uplo flag is translated into another triangle-distinguishing enumeration (lapack.UpperTri/LowerTri) the branch for Upper names the Upper constant; OKFLOW.loopstatus — a status assigned inside a loop is read before the next iteration overwrites it (a blocked driver that keeps only the last panel's status); FACTKIND.pair — the Householder reflectors (a, tau) left by a QR, RQ, LQ or QL factorization routine reach only the multiply/generate routines of the same family (reaching producers on the CFG; found and repaired: Dggsvp3 applied the reflectors of Dgerq2 with Dorm2r, so mat.GSVD of a 2x5 pair panicked); LOOPIDX.origin — the key of a range over a local reslice base[lo:hi] is not used bare to index base (found and repaired in the same routine); WORKSIZE.min/.set — on every path that returns in query mode the value stored to work[0] is proved (path-wise symbolic interpretation of the prologue in a max/min-of-polynomials normal form, block sizes and nested query answers >= 1, zero/positive facts from the quick-return tests) to be at least the minimum lwork the same routine enforces with panic(badLWork), so a caller passing the queried length is never rejected; WORKSIZE.querylen — no operand length panic is reachable in query mode, the drivers query their subroutines with nil operands (found and repaired: the quick-return answers of nine routines and Dsyev's missing store). " + what,
 		assumptions: commonAssumptions,
 		run: func(tier string, res *core.Result) {
 			sc := lapackScope(res, self, other)
@@ -214,6 +218,10 @@ func lapackProp(self, other, what string) *property {
 			ok := okflow.Run(def, core.Scope{Patterns: []string{"./lapack/gonum"}, Files: sc.Files})
 			ok.Floor("status_call_sites", 10)
 			res.Merge(ok)
+			um := flagx.RunUploMap(def, core.Pkgs("./lapack/gonum", "./mat"))
+			um.Floor("uplo_tests", 60)
+			um.Floor("cross_enum_triangle_constants", 2)
+			res.Merge(um)
 			fk := factkind.Run(def, "./lapack/gonum")
 			fk.Floor("factorization_calls", 25)
 			fk.Floor("paired_consumers", 20)
@@ -613,6 +621,10 @@ func dump(argv []string) {
 		res = graphinv.RunOrder(def)
 	case "factkind":
 		res = factkind.Run(def, argv[1:]...)
+	case "uplomap":
+		res = flagx.RunUploMap(def, core.Pkgs(argv[1:]...))
+	case "neginc":
+		res = flagx.RunNegInc(def, core.Pkgs(argv[1:]...))
 	case "global":
 		res = globalx.Run(def, core.Pkgs(argv[1:]...), globalx.Options{})
 	case "arms":
